@@ -77,6 +77,66 @@ func TestVerifC01(t *testing.T) {
 		}
 	})
 
+	// ---- directed carry matrix for Shift: carry out of container k into every shape/encoding of container k+1
+	r.Directed("shift-carry-matrix", func(id string) {
+		rng := vk.NewRand(vk.Mix(r.Seed, 0x5417))
+		lows := []string{"single65535", "edges", "full", "holeMid", "runTouchMax", "dense65535"}
+		highs := append([]string{}, vShapeNames...)
+		for _, sl := range lows {
+			for _, sh := range highs {
+				vl, vh := vShape(rng, sl), vShape(rng, sh)
+				if sh == "arr4096" || sh == "arr4095" {
+					// make sure neither 0 nor 65535 is present, so the shifted array keeps its size and receives the carry
+					var f []uint16
+					for _, v := range vh {
+						if v != 0 && v != 65535 {
+							f = append(f, v)
+						}
+					}
+					for len(f) < len(vh) {
+						f = vShape(rng, sh)
+						var g []uint16
+						for _, v := range f {
+							if v != 0 && v != 65535 {
+								g = append(g, v)
+							}
+						}
+						f = g
+					}
+					vh = f
+				}
+				for _, el := range vEncodings(vl) {
+					for _, eh := range vEncodings(vh) {
+						for _, coll := range []string{"slice", "btree"} {
+							specs := []vBitmapSpec{{Coll: coll, Prov: "fresh", Conts: []vContSpec{
+								{Key: 5, Shape: sl, Enc: vEncName(el), N: len(vl), enc: el, vals: vl},
+								{Key: 6, Shape: sh, Enc: vEncName(eh), N: len(vh), enc: eh, vals: vh}}}}
+							var arena vArena
+							b := vBuild(specs[0], &arena)
+							model := specs[0].vModel()
+							var want []uint64
+							for _, v := range model {
+								want = append(want, v+1)
+							}
+							r.Distinct(vk.Hash64("shift", sl, el, sh, eh, coll), true)
+							r.Guard(func() string { return c01Sig("panic-Shift", specs, 0) }, id, func() interface{} { return c01Case{Specs: specs} }, func() {
+								sb, err := b.Shift(1)
+								if err != nil {
+									r.Fail("Shift-error", id, err.Error(), c01Case{Specs: specs})
+									return
+								}
+								c01Check(r, id, "Shift", specs, []int{0}, sb.Slice(), want, "carry matrix")
+								c01CheckN(r, id, "Shift", specs, []int{0}, sb.Count(), uint64(len(want)), "Count, carry matrix")
+								c01ResultOK(r, id, "Shift", specs, sb)
+							})
+							arena.release()
+						}
+					}
+				}
+			}
+		}
+	})
+
 	n := r.N(700, 120000)
 	r.Cases("rand", n, func(i int, id string, rng *vk.Rand) {
 		nops := 1 + rng.Intn(3)
@@ -251,12 +311,17 @@ func c01Unary(r *vk.Run, id string, rng *vk.Rand, specs []vBitmapSpec) {
 				w = 65536 + uint64(rng.Intn(100))
 			}
 			e := a + w
-			if e < a || e == ^uint64(0) {
-				// a range ending at 2^64-1 makes Flip's `i <= end` loop unbounded; see known finding C01/flip-max
-				continue
+			if e < a {
+				e = ^uint64(0) // window clipped at the top of the domain (fixed: Flip used to loop forever here)
 			}
 			fb := b.Flip(a, e)
 			inRange := vRange(model, a, e+1)
+			if e == ^uint64(0) {
+				inRange = append([]uint64(nil), vRange(model, a, e)...)
+				if vContains(model, e) {
+					inRange = append(inRange, e)
+				}
+			}
 			var want []uint64
 			want = append(want, vRange(model, 0, a)...)
 			j := 0
@@ -271,9 +336,11 @@ func c01Unary(r *vk.Run, id string, rng *vk.Rand, specs []vBitmapSpec) {
 					break
 				}
 			}
-			want = append(want, vRange(model, e+1, ^uint64(0))...)
-			if vContains(model, ^uint64(0)) {
-				want = append(want, ^uint64(0))
+			if e != ^uint64(0) {
+				want = append(want, vRange(model, e+1, ^uint64(0))...)
+				if vContains(model, ^uint64(0)) {
+					want = append(want, ^uint64(0))
+				}
 			}
 			c01Check(r, id, "Flip", specs, idx, fb.Slice(), want, fmt.Sprintf("[%d,%d]", a, e))
 		}
